@@ -808,3 +808,242 @@ func RuleNE1(c *Ctx) {
 		sc.Undecided("sites", "-", "no use of a (value, error) result of an outside function found")
 	}
 }
+
+// ---------------------------------------------------------------- NE2
+
+// RuleNE2: the error that came with a value is the one that is tested. For `v, e := f(...)`
+// with f a function of the repository, e of an error type and v a slice, map, pointer or
+// interface, every use of v (other than handing it back together with e) is reached only
+// on paths on which THAT e was found nil. Testing another error variable that happens to be
+// in scope (`tns, je := ...; if err != nil { return je }`) lets the function go on with
+// the empty result of a failed call - an undeclared tag is accepted and the interaction
+// stored without tags.
+func RuleNE2(c *Ctx) {
+	sc := c.Run.Begin("NE2", "for every `v, e := f(...)` with f in the repository and v a slice, map, pointer or interface, each use of v is dominated by e == nil for that assignment", 5)
+	defer sc.End()
+	n := 0
+	perFn := map[*ast.FuncDecl]int{}
+	c.P.Funcs(func(pk *pkgT, fd *ast.FuncDecl) {
+		if strings.Contains(c.P.Pos(fd.Pos()), "internal/") {
+			return
+		}
+		info := pk.TypesInfo
+		ast.Inspect(fd.Body, func(x ast.Node) bool {
+			as, ok := x.(*ast.AssignStmt)
+			if !ok || len(as.Lhs) != 2 || len(as.Rhs) != 1 {
+				return true
+			}
+			call, ok := ast.Unparen(as.Rhs[0]).(*ast.CallExpr)
+			if !ok {
+				return true
+			}
+			g := Callee(info, call)
+			if g == nil || c.P.Decl(g) == nil {
+				return true
+			}
+			vid, ok1 := as.Lhs[0].(*ast.Ident)
+			eid, ok2 := as.Lhs[1].(*ast.Ident)
+			if !ok1 || !ok2 || vid.Name == "_" || eid.Name == "_" {
+				return true
+			}
+			vobj, eobj := info.ObjectOf(vid), info.ObjectOf(eid)
+			if vobj == nil || eobj == nil || !isErrorLike(eobj.Type()) {
+				return true
+			}
+			switch vobj.Type().Underlying().(type) {
+			case *types.Pointer, *types.Interface, *types.Slice, *types.Map:
+			default:
+				return true
+			}
+			body := innermostBody(fd, as)
+			cf := c.CFG(pk, body.body)
+			assigned := func(nd ast.Node, o types.Object) bool {
+				a2, ok := nd.(*ast.AssignStmt)
+				if !ok || a2 == as {
+					return false
+				}
+				for _, l := range a2.Lhs {
+					if id, ok := l.(*ast.Ident); ok && info.ObjectOf(id) == o {
+						return true
+					}
+				}
+				return false
+			}
+			gen := func(fa cfgx.Fact) bool {
+				be, ok := ast.Unparen(fa.Expr).(*ast.BinaryExpr)
+				if !ok || (be.Op != token.EQL && be.Op != token.NEQ) {
+					return false
+				}
+				l, r := be.X, be.Y
+				if isNilIdentExpr(info, l) {
+					l, r = r, l
+				}
+				id, ok := ast.Unparen(l).(*ast.Ident)
+				if !ok || info.ObjectOf(id) != eobj || !isNilIdentExpr(info, r) {
+					return false
+				}
+				return (be.Op == token.EQL) == fa.Truth
+			}
+			// the uses of v after the assignment
+			var retWithE func(id *ast.Ident) bool
+			retWithE = func(id *ast.Ident) bool {
+				hit := false
+				ast.Inspect(body.body, func(y ast.Node) bool {
+					ret, ok := y.(*ast.ReturnStmt)
+					if !ok || !(ret.Pos() <= id.Pos() && id.End() <= ret.End()) {
+						return true
+					}
+					ast.Inspect(ret, func(z ast.Node) bool {
+						if e2, ok := z.(*ast.Ident); ok && info.ObjectOf(e2) == eobj {
+							hit = true
+						}
+						return true
+					})
+					return true
+				})
+				return hit
+			}
+			first := true
+			ast.Inspect(body.body, func(y ast.Node) bool {
+				id, ok := y.(*ast.Ident)
+				if !ok || id.Pos() < as.End() || info.Uses[id] != vobj {
+					return true
+				}
+				if !cf.MustAt(id, nil, func(nd ast.Node) bool { return nd == ast.Node(as) }, func(nd ast.Node) bool { return assigned(nd, vobj) }) {
+					return true // another definition of v reaches this use
+				}
+				if retWithE(id) {
+					return true // handed back together with its error
+				}
+				if !first {
+					return true // one obligation per assignment: the first use decides
+				}
+				first = false
+				n++
+				perFn[fd]++
+				key := fmt.Sprintf("%s:%s#%d", c.P.DeclName(fd), vid.Name, perFn[fd])
+				if cf.MustAt(id, gen, nil, func(nd ast.Node) bool { return assigned(nd, eobj) || nd == ast.Node(as) }) {
+					sc.Holds(key, c.P.Pos(id.Pos()), "used only where "+eid.Name+" == nil")
+				} else {
+					sc.Violation(key, c.P.Pos(id.Pos()), fmt.Sprintf("%s (a result of %s) is used on a path on which %s, the error that came with it, was not found nil: when the call fails the function carries on with its empty result (the failure - an undeclared tag, say - is never reported)", vid.Name, g.Name(), eid.Name))
+				}
+				return true
+			})
+			return true
+		})
+	})
+	if n == 0 {
+		sc.Undecided("sites", "-", "no (value, error) result of a repository function found")
+	}
+}
+
+// ---------------------------------------------------------------- SH1
+
+// RuleSH1: an error is not lost in a shadow. Where a `:=` inside a nested block declares a
+// new error variable with the name of an error variable of an enclosing scope, the new one
+// is not afterwards assigned (`=`) the verdict of a call while the outer one is what the
+// code after the block tests: the verdict lands in the variable that dies at the closing
+// brace, the test after the block sees the outer nil, and the rejection (a second Body of
+// a request, say) is dropped without a trace.
+func RuleSH1(c *Ctx) {
+	sc := c.Run.Begin("SH1", "no error variable declared with := in a nested block under the name of an outer error variable receives a later call's verdict by plain assignment while the outer one is read after the block", 0)
+	defer sc.End()
+	n, shadows := 0, 0
+	perFn := map[*ast.FuncDecl]int{}
+	c.P.Funcs(func(pk *pkgT, fd *ast.FuncDecl) {
+		if strings.Contains(c.P.Pos(fd.Pos()), "internal/") {
+			return
+		}
+		info := pk.TypesInfo
+		ast.Inspect(fd.Body, func(x ast.Node) bool {
+			as, ok := x.(*ast.AssignStmt)
+			if !ok || as.Tok != token.DEFINE {
+				return true
+			}
+			for _, l := range as.Lhs {
+				id, ok := l.(*ast.Ident)
+				if !ok || id.Name == "_" {
+					continue
+				}
+				inner, ok := info.Defs[id].(*types.Var)
+				if !ok || inner == nil || !isErrorLike(inner.Type()) {
+					continue
+				}
+				// an outer variable of the same name and an error type, declared in this function
+				scope := inner.Parent()
+				if scope == nil || scope.Parent() == nil {
+					continue
+				}
+				_, outerObj := scope.Parent().LookupParent(id.Name, id.Pos())
+				outer, ok := outerObj.(*types.Var)
+				if !ok || outer == inner || outer.IsField() || !isErrorLike(outer.Type()) {
+					continue
+				}
+				if !(fd.Pos() <= outer.Pos() && outer.Pos() <= fd.End()) {
+					continue
+				}
+				// `if v, err := f(); err != nil {...}` scopes are idiomatic and self-contained:
+				// only a define that is a statement of a block (not an if/for/switch init)
+				isInit := false
+				ast.Inspect(fd.Body, func(y ast.Node) bool {
+					switch z := y.(type) {
+					case *ast.IfStmt:
+						if z.Init == ast.Stmt(as) {
+							isInit = true
+						}
+					case *ast.SwitchStmt:
+						if z.Init == ast.Stmt(as) {
+							isInit = true
+						}
+					case *ast.ForStmt:
+						if z.Init == ast.Stmt(as) {
+							isInit = true
+						}
+					}
+					return true
+				})
+				if isInit {
+					continue
+				}
+				shadows++
+				// (b) the inner one is later assigned a call's result by `=`
+				var lateAssign ast.Node
+				ast.Inspect(fd.Body, func(y ast.Node) bool {
+					a2, ok := y.(*ast.AssignStmt)
+					if !ok || a2.Tok != token.ASSIGN || a2.Pos() < as.End() {
+						return true
+					}
+					for i, l2 := range a2.Lhs {
+						if id2, ok := l2.(*ast.Ident); ok && info.Uses[id2] == types.Object(inner) {
+							if len(a2.Rhs) == 1 || i < len(a2.Rhs) {
+								lateAssign = a2
+							}
+						}
+					}
+					return true
+				})
+				if lateAssign == nil {
+					continue
+				}
+				// (c) the outer one is read after the inner scope ends
+				readAfter := false
+				ast.Inspect(fd.Body, func(y ast.Node) bool {
+					if id3, ok := y.(*ast.Ident); ok && info.Uses[id3] == types.Object(outer) && id3.Pos() > scope.End() {
+						readAfter = true
+					}
+					return true
+				})
+				if !readAfter {
+					continue
+				}
+				n++
+				perFn[fd]++
+				sc.Violation(fmt.Sprintf("%s:%s#%d", c.P.DeclName(fd), id.Name, perFn[fd]), c.P.Pos(lateAssign.Pos()), fmt.Sprintf("%s declared at %s shadows the %s of the enclosing scope; the verdict assigned here goes to the inner variable, which ends with its block, while the code after the block tests the outer one: the error is dropped and the faulty document accepted", id.Name, c.P.Pos(as.Pos()), id.Name))
+			}
+			return true
+		})
+	})
+	if n == 0 {
+		sc.Holds("shadows", "-", fmt.Sprintf("%d block-level shadows of an error variable, none receives a verdict that the outer scope then tests", shadows))
+	}
+}
